@@ -13,7 +13,6 @@ If the source changes, the generated text changes; either these equalities still
 rewrite) or this file no longer builds (a broken proof obligation of C17 and C19).
 -/
 import Asynkit.Gen.PosPQ
-import Asynkit.Lemmas.GenEq
 
 set_option linter.unusedSimpArgs false   -- arguments kept so that harmless rewrites of the source still prove
 
@@ -24,38 +23,50 @@ variable (H : HeapLib (Entry PV)) (gp : Nat → Rat) (draw : Nat → Rat)
 
 /-! ### constructor and the methods without loops -/
 
+/-- `PriorityValue.priority()` -/
+theorem pv_priority_eq (p : PV) : Gen.PosPQ.pv_priority p = p.priority := by
+  simp [Gen.PosPQ.pv_priority, PV.priority]
+
+/-- `PriorityValue.__lt__` is the comparison `PV.lt` that the generated methods hand to the `PQ`
+    operations -/
+theorem pv_lt_eq (a b : PV) : Gen.PosPQ.pv_lt_ a b = PV.lt a b := by
+  simp only [Gen.PosPQ.pv_lt_, PV.lt, pv_priority_eq]
+  by_cases h : a.cls = b.cls <;> simp [h]
+
+theorem pv_lt_fun : Gen.PosPQ.pv_lt_ = PV.lt := funext fun a => funext fun b => pv_lt_eq a b
+
 /-- `__init__`: the initial state of the model -/
 theorem init_eq : Gen.PosPQ.init = ({} : PosPQ) := by
-  simp [Gen.PosPQ.init, PQ.empty]
+  simp [pv_lt_fun, Gen.PosPQ.init, PQ.empty]
 
 /-- `__len__` -/
 theorem len_eq (s : PosPQ) : Gen.PosPQ.len_ H gp draw s = (s, .ok (PosPQ.len s)) := by
-  simp [Gen.PosPQ.len_, PosPQ.len, PQ.len]
+  simp [pv_lt_fun, Gen.PosPQ.len_, PosPQ.len, PQ.len]
 
 /-- `__bool__` (the model has no separate operation: non-emptiness of the heap list) -/
 theorem bool_eq (s : PosPQ) : Gen.PosPQ.bool_ H gp draw s = (s, .ok (decide (0 < PosPQ.len s))) := by
-  simp only [Gen.PosPQ.bool_, PosPQ.len, PQ.len]
+  simp only [pv_lt_fun, Gen.PosPQ.bool_, PosPQ.len, PQ.len]
   first | rfl | (congr 2; simp [Nat.pos_iff_ne_zero])
 
 /-- `clear` -/
 theorem clear_eq (s : PosPQ) : Gen.PosPQ.clear H gp draw s = (PosPQ.clear s, .ok ()) := by
-  simp [Gen.PosPQ.clear, PosPQ.clear]
+  simp [pv_lt_fun, Gen.PosPQ.clear, PosPQ.clear]
 
 /-- `__iter__` (consumed to the end): sorts in place, yields the objects in array order -/
 theorem iter_eq (s : PosPQ) :
     Gen.PosPQ.iter_ H gp draw s = ((PosPQ.iter s).2, .ok (PosPQ.iter s).1) := by
-  simp [Gen.PosPQ.iter_, PosPQ.iter]
+  simp [pv_lt_fun, Gen.PosPQ.iter_, PosPQ.iter]
 
 /-- `compute_priority_boost` with the draw `r` (`max_pri` is unused by the code) -/
 theorem compute_priority_boost_eq (s : PosPQ) (priority minPri maxPri r : Rat) :
     Gen.PosPQ.compute_priority_boost H gp draw s priority minPri maxPri r
       = (s, .ok (PosPQ.computeBoost s.factor priority minPri r)) := by
-  simp [Gen.PosPQ.compute_priority_boost, PosPQ.computeBoost]
+  simp [pv_lt_fun, Gen.PosPQ.compute_priority_boost, PosPQ.computeBoost]
 
 /-- `find` -/
 theorem find_eq (s : PosPQ) (key : Nat → Bool) (rm : Bool) :
     Gen.PosPQ.find H gp draw s key rm = ((PosPQ.find H s key rm).2, .ok (PosPQ.find H s key rm).1) := by
-  simp only [Gen.PosPQ.find, PosPQ.find]
+  simp only [pv_lt_fun, Gen.PosPQ.find, PosPQ.find]
   cases (PQ.find H PV.lt s.q key rm).1 <;> simp
 
 /-- `reschedule` -/
@@ -67,7 +78,7 @@ theorem reschedule_eq (s : PosPQ) (key : Nat → Bool) (np : Rat) :
     cases PQ.revIndex s.q.pq key with
     | none => rfl
     | some i => dsimp only; cases s.q.pq[s.q.pq.length - i - 1]? <;> rfl
-  simp only [Gen.PosPQ.reschedule, PosPQ.reschedule, hfind]
+  simp only [pv_lt_fun, Gen.PosPQ.reschedule, PosPQ.reschedule, hfind]
   cases (PQ.find H PV.lt s.q key false).1 with
   | none => simp
   | some e =>
@@ -126,12 +137,12 @@ theorem reschedule_all_loop (s : PosPQ) (rest pre : List (Entry PV)) (i : Nat) (
     Gen.PosPQ.reschedule_all_loop1 H gp draw rest i (withPq s (pre ++ rest))
       = (withPq s (pre ++ rest.map (reprio gp)), .done) := by
   induction rest generalizing pre i with
-  | nil => simp [Gen.PosPQ.reschedule_all_loop1]
+  | nil => simp [pv_lt_fun, Gen.PosPQ.reschedule_all_loop1]
   | cons e rest ih =>
     have h1 := ih (pre ++ [e]) (i + 1) (by simp [hi])
     have h2 := ih (pre ++ [{ e with pri := { e.pri with base := gp e.obj } }]) (i + 1) (by simp [hi])
     simp only [List.append_assoc, List.singleton_append] at h1 h2
-    simp only [Gen.PosPQ.reschedule_all_loop1, pvAt_mid _ _ _ _ _ hi, objAt_mid _ _ _ _ _ hi,
+    simp only [pv_lt_fun, Gen.PosPQ.reschedule_all_loop1, pvAt_mid _ _ _ _ _ hi, objAt_mid _ _ _ _ _ hi,
       setPV_mid _ _ _ _ _ hi, List.map_cons, reprio]
     by_cases hc : e.pri.cls = 0 <;> simp [hc, h1, h2]
 
@@ -140,7 +151,7 @@ theorem reschedule_all_eq (s : PosPQ) :
     Gen.PosPQ.reschedule_all H gp draw s = (PosPQ.rescheduleAll H s gp, .ok ()) := by
   have h := reschedule_all_loop H gp draw s s.q.pq [] 0 rfl
   simp only [List.nil_append, withPq_self] at h
-  simp only [Gen.PosPQ.reschedule_all, h]
+  simp only [pv_lt_fun, Gen.PosPQ.reschedule_all, h]
   simp only [PosPQ.rescheduleAll, PQ.refresh, withPq]
   first
     | rfl
@@ -171,12 +182,12 @@ theorem do_maintenance_loop (s : PosPQ) (limit : Int) (rest pre : List (Entry PV
       = (rest.foldl (accStep min) mn, rest.foldl (accStep max) mx, st ++ stragIdx limit rest i,
          withPq s (pre ++ rest), .done) := by
   induction rest generalizing pre i mn mx st with
-  | nil => simp [Gen.PosPQ.do_maintenance_loop1, stragIdx]
+  | nil => simp [pv_lt_fun, Gen.PosPQ.do_maintenance_loop1, stragIdx]
   | cons e rest ih =>
     have h1 := fun mn mx st => ih (pre ++ [e]) (i + 1) (by simp [hi]) mn mx st
     simp only [List.append_assoc, List.singleton_append] at h1
-    simp only [Gen.PosPQ.do_maintenance_loop1, pvAt_mid _ _ _ _ _ hi, objAt_mid _ _ _ _ _ hi,
-      GenEq.pvPriority_eq, h1, List.foldl_cons, stragIdx, isStrag, accStep]
+    simp only [pv_lt_fun, Gen.PosPQ.do_maintenance_loop1, pvAt_mid _ _ _ _ _ hi, objAt_mid _ _ _ _ _ hi,
+      pv_priority_eq, h1, List.foldl_cons, stragIdx, isStrag, accStep]
     by_cases hc : e.pri.cls = 0
     · simp [hc]
     · cases mn <;> cases mx <;> by_cases hl : (e.pri.insertedAt : Int) < limit <;>
@@ -199,7 +210,7 @@ theorem boost_loop (s : PosPQ) (limit : Int) (minPri maxPri : Rat) (l pre : List
       = (n + l.countP (boosts s.factor minPri draw limit),
          withPq s (pre ++ l.map (boostEntry s.factor minPri draw limit)), .done) := by
   induction l generalizing pre i n with
-  | nil => simp [Gen.PosPQ.boost_stragglers_loop1, stragIdx]
+  | nil => simp [pv_lt_fun, Gen.PosPQ.boost_stragglers_loop1, stragIdx]
   | cons e l ih =>
     have h1 := fun e' n => ih (pre ++ [e']) (i + 1) (by simp [hi]) n
     simp only [List.append_assoc, List.singleton_append] at h1
@@ -290,7 +301,7 @@ theorem boost_stragglers_eq (s : PosPQ) (limit : Int) (minPri maxPri : Rat) :
          else s, .ok ()) := by
   have h := boost_loop H gp draw s limit minPri maxPri s.q.pq [] 0 rfl 0
   simp only [List.nil_append, withPq_self, Nat.zero_add] at h
-  simp only [Gen.PosPQ.boost_stragglers, h]
+  simp only [pv_lt_fun, Gen.PosPQ.boost_stragglers, h]
   by_cases hb : s.q.pq.any (boosts s.factor minPri draw limit) = true
   · have hpos : List.countP (boosts s.factor minPri draw limit) s.q.pq > 0 := by
       rw [gt_iff_lt, List.countP_pos_iff]; simpa using hb
@@ -311,7 +322,7 @@ theorem do_maintenance_eq (s : PosPQ) :
   simp only [List.nil_append, withPq_self] at hloop
   have hl : ∀ x : Nat, (x : Int) < (s.nIns : Int) - (PQ.len s.q : Int) ↔ x < s.nIns - s.len := by
     intro x; simp only [PQ.len, PosPQ.len]; omega
-  simp only [Gen.PosPQ.do_maintenance, PosPQ.doMaintenance, hloop]
+  simp only [pv_lt_fun, Gen.PosPQ.do_maintenance, PosPQ.doMaintenance, hloop]
   by_cases hf : s.factor = 0
   · simp [hf]
   · simp only [hf, not_false_eq_true, not_true_eq_false, if_false, beq_iff_eq, ne_eq]
@@ -366,7 +377,7 @@ theorem do_maintenance_eq (s : PosPQ) :
 /-- `update_counters` -/
 theorem update_counters_eq (s : PosPQ) (ins : Bool) :
     Gen.PosPQ.update_counters H gp draw s ins = (PosPQ.updateCounters H s ins draw, .ok ()) := by
-  simp only [Gen.PosPQ.update_counters, PosPQ.updateCounters, do_maintenance_eq, PQ.len, PosPQ.len]
+  simp only [pv_lt_fun, Gen.PosPQ.update_counters, PosPQ.updateCounters, do_maintenance_eq, PQ.len, PosPQ.len]
   cases ins with
   | true =>
     by_cases h : max 10 s.q.pq.length + s.lastMaint < min (s.nIns + 1) s.nRem <;> simp [h]
@@ -376,12 +387,12 @@ theorem update_counters_eq (s : PosPQ) (ins : Bool) :
 /-- `append_pri` -/
 theorem append_pri_eq (s : PosPQ) (x : Nat) (p : Rat) :
     Gen.PosPQ.append_pri H gp draw s x p = (PosPQ.appendPri H s x p draw, .ok ()) := by
-  simp [Gen.PosPQ.append_pri, PosPQ.appendPri, update_counters_eq]
+  simp [pv_lt_fun, Gen.PosPQ.append_pri, PosPQ.appendPri, update_counters_eq]
 
 /-- `append` -/
 theorem append_eq (s : PosPQ) (x : Nat) :
     Gen.PosPQ.append H gp draw s x = (PosPQ.append H s gp x draw, .ok ()) := by
-  simp [Gen.PosPQ.append, PosPQ.append, PosPQ.appendPri, update_counters_eq]
+  simp [pv_lt_fun, Gen.PosPQ.append, PosPQ.append, PosPQ.appendPri, update_counters_eq]
 
 /-- `popleft`: IndexError on an empty queue (state untouched), else the popped object -/
 theorem popleft_eq (s : PosPQ) :
@@ -389,7 +400,7 @@ theorem popleft_eq (s : PosPQ) :
       = match PosPQ.popleft H s draw with
         | none => (s, .error PyExc.indexError)
         | some (x, s') => (s', .ok x) := by
-  simp only [Gen.PosPQ.popleft, PosPQ.popleft, update_counters_eq]
+  simp only [pv_lt_fun, Gen.PosPQ.popleft, PosPQ.popleft, update_counters_eq]
   cases PQ.popEntry H PV.lt s.q with
   | none => rfl
   | some p => rfl
@@ -400,7 +411,7 @@ theorem remove_eq (s : PosPQ) (x : Nat) :
       = match PosPQ.remove H s x draw with
         | none => (s, .error PyExc.valueError)
         | some s' => (s', .ok ()) := by
-  simp only [Gen.PosPQ.remove, PosPQ.remove, update_counters_eq]
+  simp only [pv_lt_fun, Gen.PosPQ.remove, PosPQ.remove, update_counters_eq]
   cases PQ.remove H PV.lt s.q x with
   | none => rfl
   | some p => rfl
@@ -422,11 +433,11 @@ theorem insert_loop1_eq (position fuel : Nat) (s : PosPQ) (acc : List Nat)
     have h0 : position - acc.length = 0 := by omega
     have h1 : ¬ (position > acc.length) := by omega
     have h2 : acc.length = position := by omega
-    simp [Gen.PosPQ.insert_loop1, h0, h1, h2, PosPQ.promote]
+    simp [pv_lt_fun, Gen.PosPQ.insert_loop1, h0, h1, h2, PosPQ.promote]
   | succ fuel ih =>
     by_cases hp : position > acc.length
     · obtain ⟨k, hk⟩ : ∃ k, position - acc.length = k + 1 := ⟨position - acc.length - 1, by omega⟩
-      simp only [Gen.PosPQ.insert_loop1, hp, if_true, popleft_eq, hk, PosPQ.promote]
+      simp only [pv_lt_fun, Gen.PosPQ.insert_loop1, hp, if_true, popleft_eq, hk, PosPQ.promote]
       cases hpop : PosPQ.popleft H s draw with
       | none =>
         have : acc.length ≠ position := by omega
@@ -439,14 +450,14 @@ theorem insert_loop1_eq (position fuel : Nat) (s : PosPQ) (acc : List Nat)
         simp only [this]
     · have h0 : position - acc.length = 0 := by omega
       have h2 : acc.length = position := by omega
-      simp [Gen.PosPQ.insert_loop1, hp, h0, h2, PosPQ.promote]
+      simp [pv_lt_fun, Gen.PosPQ.insert_loop1, hp, h0, h2, PosPQ.promote]
 
 /-- the `for obj in promoted: self._pq.add(pv, obj)` loop is the model's `addAll` -/
 theorem insert_loop2_eq (pv : PV) (l : List Nat) (s : PosPQ) :
     Gen.PosPQ.insert_loop2 H gp draw pv l s = ({ s with q := PosPQ.addAll H pv s.q l }, LoopOut.done) := by
   induction l generalizing s with
-  | nil => simp [Gen.PosPQ.insert_loop2, PosPQ.addAll]
-  | cons x l ih => simp [Gen.PosPQ.insert_loop2, PosPQ.addAll, ih]
+  | nil => simp [pv_lt_fun, Gen.PosPQ.insert_loop2, PosPQ.addAll]
+  | cons x l ih => simp [pv_lt_fun, Gen.PosPQ.insert_loop2, PosPQ.addAll, ih]
 
 /-- `insert(position, obj)`: no exception escapes (the IndexError of the promotion loop and of
     `peekitem` is handled) and the result is the model's `insert` -/
@@ -455,7 +466,7 @@ theorem insert_eq (s : PosPQ) (position x : Nat) :
   have hloop := insert_loop1_eq H gp draw position position s [] (by simp) (by simp)
   simp only [List.length_nil, Nat.sub_zero] at hloop
   have hfuel : ((position : Int) - ((([] : List Nat).length : Nat) : Int)).toNat = position := by simp
-  simp only [Gen.PosPQ.insert, PosPQ.insert, hfuel, hloop, insert_loop2_eq, update_counters_eq,
+  simp only [pv_lt_fun, Gen.PosPQ.insert, PosPQ.insert, hfuel, hloop, insert_loop2_eq, update_counters_eq,
     PosPQ.insertPV]
   by_cases hd : (PosPQ.promote H draw position s []).2.length = position
   · simp only [hd, if_true, beq_self_eq_true]
